@@ -10,12 +10,17 @@ def collect(ctx, gen, n, config='default', limit=3000):
     for f in glob.glob(base + '.*'): os.remove(f)
     H = [gen(ctx.rng) for _ in range(n)]
     vf.run_sharded(vf.harness_bin('kdriver', config), H, timeout=1800, env={'KHEX': base})
-    lines = []; seen = set()
+    lines = []; seen = set(); last_msk = None
     for f in sorted(glob.glob(base + '.*')):
         for l in open(f):
             l = l.strip()
             if not l: continue
             h = hashlib.md5(l.encode()).digest()
+            # a master key is dropped only when it repeats the last one KEPT (after a restore an older master key comes
+            # back and must be seen again: the public / user keys that follow are checked against the master key before them)
+            if l.startswith('MSK'):
+                if h == last_msk: continue
+                last_msk = h; lines.append(l); continue
             if h in seen: continue
             seen.add(h); lines.append(l)
         os.remove(f)
